@@ -645,6 +645,19 @@ class Evaluation:
                 nf[p0[1]] = value
                 env[place.local] = Agg("partial", nf)
                 return
+            # a field of an opaque struct value (call result, merged value) is overwritten: keep the other
+            # fields as the same symbols a read of them would have produced
+            if isinstance(base, (Opaque, Phi)) and not (isinstance(base, Opaque) and base.label.startswith("uninit:")):
+                ty = strip_ref(self.fn.types.get(place.local, ""))
+                names = self.structs._fields(ty)
+                if names and p0[1] < len(names):
+                    if isinstance(base, Phi):
+                        fields = [Opaque(f"{base.label}.{i}") for i in range(len(names))]
+                    else:
+                        fields = [Opaque(f"{base.label}.{self.structs.name(ty, i)}") for i in range(len(names))]
+                    fields[p0[1]] = value
+                    env[place.local] = Agg(re.sub(r"<.*$", "", ty).split("::")[-1], fields, list(names))
+                    return
         # unknown structure: the base becomes a fresh opaque value that keeps its name root, so
         # later reads of its fields are new symbols (sound) but still recognisable
         self.havoc_counter = getattr(self, "havoc_counter", 0) + 1
